@@ -83,6 +83,7 @@ pub fn single_ops(thorough: bool) -> Vec<Op> {
     OnErrorResumeNext(Resume::Cold89),
     ObserveOnDefault,
     SubscribeOnDefault,
+    Defer,
     Timestamp,
     TimeInterval,
   ];
